@@ -38,6 +38,7 @@ def main (args : List String) : IO UInt32 := do
     out.putStrLn ("STATS " ++ j.stats.json)
     out.putStrLn ("PURE " ++ j.pm.json)
     out.putStrLn ("PURE " ++ j.tm.json)
+    out.putStrLn ("PURE " ++ j.algoJson)
     return 0
   | ["gen", profile, seed, count, len] =>
     let lines := genProfile profile seed.toNat! count.toNat! len.toNat!
